@@ -160,6 +160,7 @@ _FLIP = {ast.Lt: ast.Gt, ast.Gt: ast.Lt, ast.LtE: ast.GtE, ast.GtE: ast.LtE, ast
 
 
 _AUG_OPS = (ast.Add, ast.Sub, ast.Mult)
+_NEG_OP = {ast.Eq: ast.NotEq, ast.NotEq: ast.Eq, ast.Is: ast.IsNot, ast.IsNot: ast.Is, ast.In: ast.NotIn, ast.NotIn: ast.In}
 
 
 def _kind(n: ast.AST) -> Optional[str]:
@@ -208,6 +209,8 @@ def _flip_in_place(n: ast.AST, fn: Optional[ast.AST] = None) -> Optional[ast.AST
     elif k == "if":
         if isinstance(n.test, ast.UnaryOp) and isinstance(n.test.op, ast.Not):
             n.test = n.test.operand
+        elif isinstance(n.test, ast.Compare) and len(n.test.ops) == 1 and type(n.test.ops[0]) in _NEG_OP:
+            n.test.ops = [_NEG_OP[type(n.test.ops[0])]()]  # the loader's canonical spelling of a negated single comparison (sa/canon.py)
         else:
             neg = ast.copy_location(ast.UnaryOp(op=ast.Not(), operand=n.test), n.test)
             neg._parent = n  # type: ignore[attr-defined]
@@ -255,6 +258,16 @@ class _Orient(ast.NodeTransformer):
             t = node.test
             while isinstance(t, ast.UnaryOp) and isinstance(t.op, ast.Not):
                 depth, t = depth + 1, t.operand
+            if isinstance(t, ast.Compare) and len(t.ops) == 1 and isinstance(t.ops[0], (ast.NotEq, ast.IsNot, ast.NotIn)):
+                # a negative comparison counts as one negation: 'if a != b: A else: B' and 'if a == b: B else: A' share one canonical form
+                t.ops = [_NEG_OP[type(t.ops[0])]()]
+                node.test = t if depth % 2 == 0 else ast.UnaryOp(op=ast.Not(), operand=t)
+                node.body, node.orelse = node.orelse, node.body
+                self.bits[fid] = int(depth % 2 == 0)
+                if depth % 2 == 1:
+                    node.test = t
+                    node.body, node.orelse = node.orelse, node.body
+                return node
             if depth >= 2:  # 'not not c': drop the pairs first (the copy only)
                 node.test = t if depth % 2 == 0 else ast.UnaryOp(op=ast.Not(), operand=t)
             flip = depth % 2 == 1
